@@ -92,6 +92,9 @@ type Sim struct {
 	Obs     Observer
 	GenesisEligible bool // genesis validators satisfy the governance limits (count, minimum stake)
 	Cur     *BeginArgs // header of the block in execution
+	PendingEvidence []rtypes.Address // scenario: evidence to inject into the next block
+	PendingCheck    []func() []byte  // scenario: transactions to CheckTx (never delivered)
+	VoteAll         bool             // scenario: every validator votes on the latest proposal when its window opens
 	Restarted bool // a restart happened since the last EndBlock
 	EverRestarted bool
 }
